@@ -103,6 +103,11 @@ def gen_matrix(rng, nprng, layout, M0, p_num=0.15, cplx=False, sym=False):
         # matmul / jack_matmul / einsum recognise a complex matrix by its first element (anything else is
         # refused with an exception or is a real matrix): the first element of a complex matrix is a CObs
         A[0, 0] = pe.CObs(make_obs(rng, nprng, layout, float(np.real(M0[0, 0]))), make_obs(rng, nprng, layout, 0.3))
+    if getattr(gen_matrix, 'int00', False) and not cplx:
+        # an external input given with an integer mean (`cov_Obs(2, ...)`): its central value is a Python int
+        A[0, 0] = pe.cov_Obs(int(max(1, round(float(np.real(M0[0, 0]))))), 0.01, 'cvI')
+        if sym:
+            pass
     return A
 
 
@@ -146,6 +151,7 @@ def check_case(ctx, case):
     with warnings.catch_warnings(), quiet():
         warnings.simplefilter('ignore')
         layout = make_layout(rng, mode=case.get('mode', 'subsets'))
+        gen_matrix.int00 = bool(case.get('int00'))
         try:
             if what == 'matmul':
                 dims = case['dims']
@@ -374,6 +380,7 @@ def gen_case(ctx):
     n = rng.randint(1, 4)
     case = {'what': what, 'seed': rng.getrandbits(28), 'n': n, 'p_num': rng.choice([0.0, 0.15, 0.3])}
     case['mode'] = rng.choice(['subsets', 'sublists'])
+    case['int00'] = rng.random() < 0.2
     if what == 'matmul':
         nf = rng.randint(2, 4)
         case['dims'] = [n] * (nf + 1)          # matmul takes operands of one common (square) shape
